@@ -52,6 +52,7 @@ class AssembleAction : public Action {
 class SerialAssembleAction : public AssembleAction {
   public:
     using AssembleAction::AssembleAction;
+    virtual ~SerialAssembleAction();
 
   protected:
     virtual void onPause() override;
@@ -65,6 +66,7 @@ class SerialAssembleAction : public AssembleAction {
 
     bool startThisAction(Action *action);
     void stopCurrAction();
+    void cancelChildFinishReplay();
 
     //! 子动作结束事件处理
     bool handleChildFinishEvent(ChildFinishFunc &&child_finish_func);
@@ -74,6 +76,7 @@ class SerialAssembleAction : public AssembleAction {
   private:
     Action *curr_action_ = nullptr;     //! 当前正在执行的动作
     ChildFinishFunc child_finish_func_; //! 上一个动用缓存的finish事件
+    event::Loop::RunId child_finish_run_id_ = 0;    //! onResume()中重放finish事件的runNext()任务号，用于撤消
 };
 
 }
